@@ -12,11 +12,13 @@ require (
 )
 
 require (
+	github.com/gowebpki/jcs v1.0.1 // indirect
 	github.com/lestrrat-go/blackmagic v1.0.2 // indirect
 	github.com/lestrrat-go/httpcc v1.0.1 // indirect
 	github.com/lestrrat-go/httprc v1.0.6 // indirect
 	github.com/lestrrat-go/iter v1.0.2 // indirect
 	github.com/lestrrat-go/option v1.0.1 // indirect
+	github.com/oleiade/reflections v1.1.0 // indirect
 	golang.org/x/crypto v0.32.0 // indirect
 )
 
